@@ -1,7 +1,8 @@
 //! C16: level validation guarantees that the level-n slice of the store suffices.
 //! One case = one schema world (2/3 chain worlds from gen_schema_chain.rs, 1/3 generic worlds from gen_schema.rs) with a
 //! dense conformant store, ~6 schema-directed valid policies (gen_typed.rs) and ~14 *chain policies* (below) of
-//! dereference depth 0..5, and 10 conformant requests.
+//! dereference depth 0..5, 5 *const-operand policies* (`body_const`: a non-literal operand of `||` / `&&` / `if` that is typed
+//! False / True and dereferences deeper than the rest of the policy), and 10 conformant requests.
 //!   K  (correspondence)
 //!      * per strict-valid policy (single-policy sets): the verdicts of `Validator::validate_with_level(.., Strict, n)`
 //!        for n = 0..4 — accepted, or the classes of level errors (maximum level exceeded with the largest required level,
@@ -327,6 +328,72 @@ impl ChainGen<'_> {
         }
     }
 
+    /// a test that the typechecker gives the singleton type `False` (`want == false`) or `True` although it is not a
+    /// literal, and that performs about `d` entity dereferences: `<chain> has <undeclared attribute>`, `<chain> is
+    /// <another type>`, `<chain> in <entity of a type the hierarchy excludes>`, `<atom> && false`, negations of the
+    /// `True` forms; `<chain> is <its type>`, `<chain> has <required attribute>`, `<atom> || true`, negations of the
+    /// `False` forms.  The operand is still *evaluated* (and so dereferences entities) wherever it stands.
+    fn const_test(&self, r: &mut Rng, d: u32, want: bool) -> String {
+        let mut e = PE { text: "principal".into(), ty: STy::Entity(self.pt.clone()), guards: vec![], derefs: 0 };
+        for _ in 0..10 {
+            let wraps = r.chance(30);
+            let c = self.chain(r, d.saturating_sub(1), wraps);
+            if matches!(c.ty, STy::Entity(_)) && c.derefs + 1 >= d {
+                e = c;
+                break;
+            }
+        }
+        let STy::Entity(t) = e.ty.clone() else { unreachable!() };
+        let x = e.text.clone();
+        let et = self.spec.etype(&t);
+        let others: Vec<String> = self.spec.etypes.iter().map(|o| o.name.clone()).filter(|n| *n != t).collect();
+        let anc = self.spec.allowed_ancestor_types(&t);
+        let unrelated: Vec<String> = others.iter().filter(|n| !anc.contains(n)).cloned().collect();
+        let required: Vec<String> = et.map(|et| et.attrs.iter().filter(|a| a.required).map(|a| a.name.clone()).collect()).unwrap_or_default();
+        let mut g = e.guards.clone();
+        let always_false = |r: &mut Rng, g: &mut Vec<String>| -> String {
+            match r.below(6) {
+                0 | 1 => format!("{x} has zz_undeclared"),
+                2 if !others.is_empty() => format!("{x} is {}", r.pick(&others).clone()),
+                3 if !unrelated.is_empty() => { let u = r.pick(&unrelated).clone(); format!("{x} in {}", self.lit_of(r, &u)) }
+                4 => format!("({} && false)", self.atom(r, &e, g)),
+                5 if !required.is_empty() => format!("!({})", has(&x, &r.pick(&required).clone())),
+                _ => format!("{x} has zz_undeclared"),
+            }
+        };
+        let always_true = |r: &mut Rng, g: &mut Vec<String>| -> String {
+            match r.below(5) {
+                0 => format!("{x} is {t}"),
+                1 | 2 if !required.is_empty() => has(&x, &r.pick(&required).clone()),
+                3 => format!("({} || true)", self.atom(r, &e, g)),
+                _ => format!("!({x} has zz_undeclared)"),
+            }
+        };
+        if want {
+            let a = always_true(r, &mut g);
+            if g.is_empty() { a } else if r.chance(50) { format!("(!({}) || {a})", g.join(" && ")) } else { format!("(if {} then {a} else true)", g.join(" && ")) }
+        } else {
+            let a = always_false(r, &mut g);
+            if g.is_empty() { a } else { format!("({} && {a})", g.join(" && ")) }
+        }
+    }
+
+    /// conditions in which a constant-typed, non-literal operand of `||` / `&&` / `if` dereferences DEEPER (`d`) than the
+    /// rest of the policy: the level of the policy is the level of that operand
+    fn body_const(&self, r: &mut Rng, d: u32) -> String {
+        let low = |r: &mut Rng| if d <= 1 { 0 } else { r.below(d as usize) as u32 };
+        match r.below(9) {
+            0 | 1 => { let l = low(r); format!("{} || {}", self.const_test(r, d, false), self.guarded(r, l)) }
+            2 => { let l = low(r); format!("{} && {}", self.const_test(r, d, true), self.guarded(r, l)) }
+            3 => { let (l1, l2) = (low(r), low(r)); format!("if {} then {} else {}", self.const_test(r, d, false), self.guarded(r, l1), self.guarded(r, l2)) }
+            4 => { let (l1, l2) = (low(r), low(r)); format!("if {} then {} else {}", self.const_test(r, d, true), self.guarded(r, l1), self.guarded(r, l2)) }
+            5 => { let (l1, l2) = (low(r), low(r)); format!("{} && ({} || {})", self.guarded(r, l1), self.const_test(r, d, false), self.guarded(r, l2)) }
+            6 => { let (l1, l2) = (low(r), low(r)); format!("({} || {}) || {}", self.const_test(r, l1.max(1), false), self.const_test(r, d, false), self.guarded(r, l2)) }
+            7 => { let l = low(r); format!("!({} || {})", self.const_test(r, d, false), self.guarded(r, l)) }
+            _ => { let l = low(r); format!("{} || ({} && {})", self.guarded(r, l), self.const_test(r, d, true), self.const_test(r, l.max(1), true)) }
+        }
+    }
+
     fn body(&self, r: &mut Rng, d: u32) -> String {
         let low = |r: &mut Rng| if d == 0 { 0 } else { r.below(d as usize + 1) as u32 };
         match r.below(10) {
@@ -339,7 +406,7 @@ impl ChainGen<'_> {
     }
 }
 
-fn chain_policy(r: &mut Rng, spec: &SchemaSpec, d: u32) -> String {
+fn chain_policy(r: &mut Rng, spec: &SchemaSpec, d: u32, const_operands: bool) -> String {
     let cands: Vec<usize> = spec.actions.iter().enumerate().filter(|(_, a)| a.applies.is_some()).map(|(i, _)| i).collect();
     let ai = *r.pick(&cands);
     let ap = spec.actions[ai].applies.as_ref().unwrap();
@@ -366,7 +433,8 @@ fn chain_policy(r: &mut Rng, spec: &SchemaSpec, d: u32) -> String {
         }
         _ => format!("action == {au}"),
     };
-    let mut text = format!("{}({ptxt}, {atxt}, {rtxt}) when {{ {} }}", if r.chance(75) { "permit" } else { "forbid" }, g.body(r, d));
+    let body = if const_operands { g.body_const(r, d) } else { g.body(r, d) };
+    let mut text = format!("{}({ptxt}, {atxt}, {rtxt}) when {{ {} }}", if r.chance(75) { "permit" } else { "forbid" }, body);
     if r.chance(12) {
         text.push_str(&format!(" unless {{ {} }}", g.body(r, d.saturating_sub(1))));
     }
@@ -522,7 +590,7 @@ fn tyck_tpl(t: &Template) -> Option<String> {
 }
 
 #[allow(clippy::too_many_arguments)]
-fn one_world(out: &mut Out, r: &mut Rng, w: &SchemaWorld, chainy: bool, cname: &str, n_typed: usize, n_chain: usize, n_requests: usize, n_slice_lines: usize) {
+fn one_world(out: &mut Out, r: &mut Rng, w: &SchemaWorld, chainy: bool, cname: &str, n_typed: usize, n_chain: usize, n_const: usize, n_requests: usize, n_slice_lines: usize) {
     let ext = Extensions::all_available();
     let ssx = sx_schema::schema(&w.schema);
     let val = Validator::new(w.schema.clone());
@@ -546,7 +614,12 @@ fn one_world(out: &mut Out, r: &mut Rng, w: &SchemaWorld, chainy: bool, cname: &
     }
     for i in 0..n_chain {
         let d = (i as u32) % (MAX_LEVEL + 2);
-        texts.push((chain_policy(r, &w.spec, d), "chain"));
+        texts.push((chain_policy(r, &w.spec, d, false), "chain"));
+    }
+    // constant-typed (False / True) non-literal operands of || && if that dereference deeper than the rest
+    for i in 0..n_const {
+        let d = 1 + (i as u32) % (MAX_LEVEL + 1);
+        texts.push((chain_policy(r, &w.spec, d, true), "const-operand"));
     }
     let mut pols: Vec<Pol> = Vec::new();
     for (i, (text, kind)) in texts.into_iter().enumerate() {
@@ -573,7 +646,7 @@ fn one_world(out: &mut Out, r: &mut Rng, w: &SchemaWorld, chainy: bool, cname: &
         };
         if !strict.validation_passed() {
             out.count(&format!("strict_rejected:{kind}"));
-            if kind == "chain" {
+            if kind != "typed" {
                 out.sample(format!("STRICT-REJECTED {text} :: {}", strict.validation_errors().map(|e| e.to_string()).collect::<Vec<_>>().join(" | ")));
             }
             continue;
@@ -844,7 +917,7 @@ pub fn run(args: &Args, out: &mut Out) {
         out.cases += 1;
         out.count(if chainy { "worlds:chain" } else { "worlds:generic" });
         let cname = format!("case={case} sub={sub}");
-        one_world(out, &mut r, &w, chainy, &cname, 6, 14, 10, 2);
+        one_world(out, &mut r, &w, chainy, &cname, 6, 14, 5, 10, 2);
     }
 }
 
